@@ -14,6 +14,8 @@ Workspace callees are inlined; Option::{expect, unwrap} are modelled.
 """
 import copy
 
+import examined
+
 
 class Top(Exception):
     pass
@@ -424,6 +426,7 @@ class Interp:
             if depth >= self.MAX_DEPTH:
                 raise Top('inlining depth exceeded')
             cenv = {i + 1: a for i, a in enumerate(args)}
+            examined.note(target)
             self.explore(target, 0, cenv, st, {}, depth + 1, cont)
             return
         name = callee['name']
